@@ -49,8 +49,8 @@ def bitNames (tbl : List (Int × String)) (n : Nat) : List String :=
 
 /-- one field statement: returns the value, the raw value and the offset after op-specific skipping -/
 def runOp (env : Env) (data off : Nat) (done : List Field) : DecOp → Except DecErr (PyVal × PyVal × Nat)
-  | .number len signed res mn mx post => do
-    let r ← decodeNumber data off len signed res mn mx
+  | .number len signed res mn mx ofs post => do
+    let r ← decodeNumber data off len signed res mn mx ofs
     let raw : PyVal := match r with | some x => numVal x | none => .none
     match post with
     | .id => pure (raw, raw, off)
@@ -154,9 +154,9 @@ def revLookup (env : Env) (e : String) (v : PyVal) : Except EncErr Int :=
 
 /-- the integer a step contributes before masking -/
 def encValue (env : Env) (f : Field) : EncKind → Except EncErr Int
-  | .number bits signed res =>
+  | .number bits signed res ofs =>
     (match f.value with
-     | .none | .int _ | .flt _ | .nan | .inf _ => encodeNumber f.value bits signed res
+     | .none | .int _ | .flt _ | .nan | .inf _ => encodeNumber f.value bits signed res ofs
      | _ => throw .type_)
   | .reserved => (match f.value with | .int z => pure z | _ => throw .type_)
   | .float =>
